@@ -141,6 +141,13 @@ def main():
     rd = sys.argv[1]
     use_focus = "--focus" in sys.argv or "--focus2" in sys.argv
     table = FOCUS2 if "--focus2" in sys.argv else FOCUS
+    if "--focus3" in sys.argv:
+        use_focus = True
+        g = ("an error / corner path that the library handles itself (allocation or pthread_create or mmap or futex failure, EINTR/EAGAIN, "
+             "an empty or single-element structure, a first-use / last-use transition, wrap-around of a counter), a rarely used public API "
+             "function or flag combination, or an interplay between two functions or files that each look fine alone - anything within the "
+             "property, but not the mainstream fast path that every user exercises")
+        table = dict((k, g) for k in FOCUS)
     props = {json.loads(l)["id"]: json.loads(l) for l in open(os.path.join(V, "properties.jsonl"))}
     prev = {}
     for m in sorted(glob.glob(os.path.join(V, "seeded", "C*-*", "meta.json"))):
